@@ -255,6 +255,112 @@ def two_sessions_monitor(res):
     return None
 
 
+def run_session_sandboxes(rp, npilots, order):
+    """one session with several pilots on the same resource: the REAL Session sandbox getters (as Pilot.__init__ and
+    TMGRSchedulingComponent._assign_pilot call them) give every pilot its own sandbox, and a task bound to any of the
+    pilots is staged (real client and agent input stagers) into that pilot's sandbox.
+    `order`: the order in which the pilots' sandboxes are first asked for.  Returns per pilot what was observed."""
+    import copy, shutil
+    import threading as mt
+    import radical.utils as ru
+    from radical.pilot.tmgr.scheduler.base import TMGRSchedulingComponent
+    root = tempfile.mkdtemp(prefix='c11_sbox_')
+    cwd = os.getcwd()
+    try:
+        sid = 'rp.session.verif.0007'
+        trees = [stagelib.Tree(root, sid=sid, pid='pilot.%04d' % k) for k in range(npilots)]
+        sess = object.__new__(rp.Session)
+        sess._uid, sess._log = sid, rpload.NullLog()
+        sess._cache_lock = mt.RLock()
+        sess._cache = {'endpoint_fs': {'local.localhost': ru.Url('file://localhost/')},
+                       'resource_sandbox': {'local.localhost': ru.Url(trees[0].url(trees[0].rsbox))},
+                       'session_sandbox': dict(), 'pilot_sandbox': dict(), 'client_sandbox': trees[0].client,
+                       'js_shells': dict(), 'fs_dirs': dict()}
+        pdicts = {}
+        for k in order:
+            pd = {'uid': 'pilot.%04d' % k, 'pilot_sandbox': '', 'description': {'resource': 'local.localhost', 'access_schema': 'local'}}
+            # Pilot.__init__: the handle asks the session for its sandboxes and publishes them in its dict
+            pd['pilot_sandbox'] = str(sess._get_pilot_sandbox(dict(pd, pilot_sandbox='')))
+            pdicts[k] = pd
+        sched = object.__new__(TMGRSchedulingComponent)
+        sched._session, sched._log = sess, rpload.NullLog()
+        sched._tasks, sched._tasks_lock = {}, mt.RLock()
+        res = []
+        with open(os.path.join(trees[0].client, 'in.dat'), 'w') as f: f.write('payload')
+        for k in range(npilots):
+            tree = trees[k]
+            d = {'executable': '/bin/true', 'output_staging': [], 'stage_on_error': False,
+                 'input_staging': [{'source': 'client:///in.dat', 'target': 'task:///got.dat', 'action': 'Transfer'},
+                                   {'source': 'client:///in.dat', 'target': 'pilot:///shared_%d.dat' % k, 'action': 'Transfer'}]}
+            task = tree.task_dict(rp, 'task.%06d' % k, d)
+            for key in ('client_sandbox', 'endpoint_fs', 'resource_sandbox', 'session_sandbox', 'pilot_sandbox', 'task_sandbox', 'task_sandbox_path'):
+                task.pop(key, None)
+            sched._assign_pilot(task, pdicts[k])
+            tin, ain = stagelib.make_stagers(rp, tree)[:2]
+            os.chdir(tree.client); tin.work([task])
+            st = stagelib.last_state(tin, task['uid'])
+            if st == 'AGENT_STAGING_INPUT_PENDING':
+                os.makedirs(tree.psbox, exist_ok=True)
+                os.chdir(tree.psbox); ain.work([copy.deepcopy(task)])
+                st = stagelib.last_state(ain, task['uid'])
+            rd = lambda p: open(p).read() if os.path.isfile(p) else None
+            res.append({'pilot': k, 'pilot_sandbox': ru.Url(task['pilot_sandbox']).path.rstrip('/'), 'want_sandbox': tree.psbox,
+                        'state': st, 'task_file': rd(os.path.join(tree.psbox, task['uid'], 'got.dat')),
+                        'pilot_file': rd(os.path.join(tree.psbox, 'shared_%d.dat' % k))})
+        return res
+    finally:
+        os.chdir(cwd)
+        shutil.rmtree(root, ignore_errors=True)
+
+
+def session_sandboxes_monitor(res):
+    boxes = [r['pilot_sandbox'] for r in res]
+    for r in res:
+        if os.path.realpath(r['pilot_sandbox']) != os.path.realpath(r['want_sandbox']):
+            return ('session-sandboxes:pilot-gets-a-sandbox-that-is-not-its-own',
+                    'pilot.%04d is given %s (expected <session sandbox>/pilot.%04d)' % (r['pilot'], r['pilot_sandbox'], r['pilot']))
+        if r['state'] != 'AGENT_SCHEDULING_PENDING' or r['task_file'] != 'payload' or r['pilot_file'] != 'payload':
+            return ('session-sandboxes:input-target-missing-in-the-sandbox-of-its-pilot',
+                    'task of pilot.%04d: state %s, task:///got.dat %r, pilot:///shared %r' % (r['pilot'], r['state'], r['task_file'], r['pilot_file']))
+    if len(set(boxes)) != len(boxes):
+        return ('session-sandboxes:two-pilots-share-a-sandbox', str(boxes))
+    return None
+
+
+def session_sandboxes_part(ctx, rp):
+    n = 0
+    # which directory each pilot is given, for any order and repetition of the requests (real getter vs Staging.pilotSandboxes)
+    import threading as mt
+    import radical.utils as ru
+    ops, impl = [], []
+    for _ in range(ctx.n(40, 1000)):
+        pids = [ctx.rng.randrange(5) for _ in range(ctx.rng.randint(1, 8))]
+        sess = object.__new__(rp.Session)
+        sess._uid, sess._log, sess._cache_lock = 'rp.session.verif.0007', rpload.NullLog(), mt.RLock()
+        sess._cache = {'endpoint_fs': {}, 'resource_sandbox': {'local.localhost': ru.Url('file://localhost/scratch/radical.pilot.sandbox')},
+                       'session_sandbox': dict(), 'pilot_sandbox': dict(), 'client_sandbox': '/client', 'js_shells': dict(), 'fs_dirs': dict()}
+        got = []
+        for k in pids:
+            sb = sess._get_pilot_sandbox({'uid': 'pilot.%04d' % k, 'pilot_sandbox': '', 'description': {'resource': 'local.localhost'}})
+            path = ru.Url(sb).path.rstrip('/')
+            base = os.path.basename(path)
+            ok = os.path.dirname(path) == '/scratch/radical.pilot.sandbox/rp.session.verif.0007' and base.startswith('pilot.')
+            got.append(int(base.split('.')[1]) if ok else -1)
+        ops.append({'op': 'sandboxes', 'pids': pids}); impl.append(got)
+        ctx.case(ops[-1], nontrivial=len(set(pids)) > 1)
+    common.compare(ctx, 'staging', ops, impl, what='real Session._get_pilot_sandbox over request sequences of several pilots')
+    for npilots in (1, 2, 3):
+        for order in ([list(range(npilots)), list(reversed(range(npilots)))] if npilots > 1 else [[0]]):
+            res = run_session_sandboxes(rp, npilots, order)
+            n += 1
+            ctx.case({'session_sandboxes': [npilots, order]}, nontrivial=npilots > 1)
+            bad = session_sandboxes_monitor(res)
+            if bad:
+                ctx.fail(bad[0], bad[1], {'kind': 'session_sandboxes', 'npilots': npilots, 'order': order}, observed=res)
+    ctx.obligation('one session, 1-3 pilots on one resource (%d runs): the real sandbox getters give each pilot its own sandbox, tasks '
+                   'are staged into the sandbox of the pilot they are bound to' % n, 'tie', True, '')
+
+
 def two_sessions_part(ctx, rp):
     n = 0
     for _ in range(ctx.n(6, 60)):
@@ -274,6 +380,7 @@ def run(ctx):
     rp  = rpload.load()
     rng = ctx.rng
     two_sessions_part(ctx, rp)
+    session_sandboxes_part(ctx, rp)
     import radical.utils as ru
     from radical.pilot.staging_directives import expand_staging_directives, complete_url
     src = os.path.join(os.path.dirname(os.path.dirname(rp.__file__)), 'pilot') if False else os.path.dirname(rp.__file__)
@@ -498,6 +605,11 @@ CORPUS = [_c_tarball, _c_on_error, _c_missing]
 def replay(ctx, data):
     rp = rpload.load()
     i = data['input']
+    if i.get('kind') == 'session_sandboxes':
+        res = run_session_sandboxes(rp, i['npilots'], i['order'])
+        bad = session_sandboxes_monitor(res)
+        print('observed:', res, bad)
+        return not bad
     if i.get('kind') == 'two_sessions':
         res = run_two_sessions(rp, i['nfiles'], i['interleave'])
         bad = two_sessions_monitor(res)
